@@ -27,6 +27,11 @@ def reference_params(ctx, m):
     return out
 
 
+def bare_leaf(ctx, fd):
+    """reserved-word leaf of a message that is not proto-plus: the parameter keeps the bare name (finding F-dep-reserved-flattened)"""
+    return fd.name in RESERVED and fd.containing_type.file.name not in set(ctx.case["file_to_generate"])
+
+
 def oneof_claims(desc, path):
     """{(prefix path, oneof name): member} for every segment of `path` that is a member of a real oneof."""
     out, d, prefix = {}, desc, ""
@@ -149,7 +154,12 @@ def exercise(ctx):
                     want_judged = want
                 if flat != want_judged:
                     ctx.violation("param-order", f"{path_} ({kind}): flattened parameters {flat}, declared order {want}")
-                    continue
+                    want_bare = [fd.name if bare_leaf(ctx, fd) else p for _, fd, p in params if p in want_judged]
+                    if flat != want_bare:
+                        continue
+                    # only the known bare-name shape differs: the equivalence is still judged, under the names offered
+                    if kind == "async":
+                        params = [(pth, fd, fd.name if bare_leaf(ctx, fd) else p) for pth, fd, p in params]
                 bad = [p for p in flat if sig.parameters[p].kind is not inspect.Parameter.KEYWORD_ONLY]
                 if bad:
                     ctx.violation("param-kind", f"{path_} ({kind}): parameters {bad} are not keyword-only")
